@@ -19,6 +19,7 @@ RULE = (
     "(rotate/translate/scale incl. reflections, unequal factors and the 'center'/'centroid' origins, in place or not) x a jittered grid of probe "
     "points, or a device (film, holes, probe points) under copy/scale/rotate/translate and the temporary `translation()` context (queried inside and after the block); non-trivial = boundaries of a pair intersect, or a "
     "transform with a reflection; distinct by spec hash"
+    "; notch-and-bar histories that can enclose a void; set operations without operands"
 )
 ASSUMPTIONS = [
     "membership is asserted only at probe points farther than 1e-6 x size from every boundary involved",
